@@ -68,6 +68,9 @@ def _run_one(args):
         # edits another file leaves their verdict on the base tree untouched; the others get the smallest matrix
         touched = [relpath]
         os.environ["TSVERIF_REPLAY"] = "light" if any("_brownian" in r for r in touched) else "skip"
+        # likewise the end-to-end replay of the driver reads the driver, the interpolation and the step functions only
+        driver = ("_core/base_solver.py", "_core/methods/", "_core/interp.py", "_brownian/derived.py")
+        os.environ["TSVERIF_SOLVER_REPLAY"] = "light" if any(d in r for r in touched for d in driver) else "skip"
         try:
             code, rep = run_property(pid, tmp, "quick", 0, write=False, quiet=True)
             # normalise construct keys (they contain no absolute paths, only relpaths)
@@ -77,6 +80,7 @@ def _run_one(args):
         except Exception as e:
             return v_name, "analysis-error", f"{type(e).__name__}: {e}", None
     finally:
+        os.environ.pop("TSVERIF_SOLVER_REPLAY", None)
         if "saved" in locals():
             if saved is None:
                 os.environ.pop("TSVERIF_REPLAY", None)
